@@ -582,4 +582,242 @@ Proof.
       rewrite !bpush_tokens, !app_length in LP. cbn [length] in LP. lia.
 Qed.
 
+Opaque set_map_at.
+Lemma r_table_g term (T : term_g term) st sl el silent b st' :
+  r_table cfg term st sl el silent = Ok (b, st') -> grow QT st st'.
+Proof.
+  unfold r_table. intros H.
+  rstep H; [rfinish H; apply grow_refl|].
+  rstep H. rstep H; [rfinish H; apply grow_refl|].
+  rstep H. rstep H; [rfinish H; apply grow_refl|].
+  do 2 rstep H. rstep H; [rfinish H; apply grow_refl|].
+  rstep H. rstep H; [rfinish H; apply grow_refl|].
+  rstep H; [rfinish H; apply grow_refl|].
+  rstep H. rstep H; [rfinish H; apply grow_refl|].
+  rstep H; [rfinish H; apply grow_refl|].
+  rstep H. rstep H; [rfinish H; apply grow_refl|].
+  rstep H. rstep H; [|rfinish H; apply grow_refl].
+  rstep H. rstep H; [rfinish H; apply grow_refl|].
+  rstep H. rstep H; [rfinish H; apply grow_refl|].
+  rstep H; [rfinish H; apply grow_refl|].
+  destruct silent; [rfinish H; apply grow_refl|].
+  match type of H with bind ?m _ = _ => destruct m as [[[nl tbody] st7]|?|] eqn:TR end; cbn [bind] in H; try discriminate H.
+  rfinish H.
+  (* head *)
+  match type of TR with table_rows _ _ _ ?s6 _ _ _ _ _ = _ =>
+    assert (EH : grow QT st s6)
+  end.
+  { apply (grow_push' _ tt_QT); [| solve_keeps_tt | pg_table].
+    apply (grow_push' _ tt_QT); [| solve_keeps_tt | pg_table].
+    apply push_cells_g; [left; repeat split; reflexivity|].
+    grow_chain tt_QT pg_table from_refl. }
+  pose proof (grow_len _ _ _ EH) as LH.
+  apply (table_rows_g term T) in TR. destruct TR as [G7 B7].
+  assert (E7 : grow QT st st7) by (eapply grow_trans; eassumption).
+  pose proof (grow_len _ _ _ E7) as L7.
+  destruct tbody as [bi|].
+  - (* tbody close + its map update, then table close + its map update *)
+    destruct (B7 bi eq_refl) as [E | Lbi]; [discriminate E|].
+    match goal with |- grow _ _ (st_line (st_parent (?s9 <| b_tokens := set_map_at _ ?idx ?g |>) _) _) =>
+      eapply (grow_set_map QT tt_QT st s9 _ idx g); [| | unfold st_line, st_parent; cbn; reflexivity]
+    end.
+    + apply (grow_push' _ tt_QT); [| solve_keeps_tt | pg_table].
+      match goal with |- grow _ _ (?s1 <| b_tokens := set_map_at _ ?i2 ?g2 |>) =>
+        eapply (grow_set_map QT tt_QT st s1 _ i2 g2); [| | reflexivity]
+      end.
+      * apply (grow_push' _ tt_QT); [exact E7 | solve_keeps_tt | pg_table].
+      * lia.
+    + cbn. lia.
+  - match goal with |- grow _ _ (st_line (st_parent (?s9 <| b_tokens := set_map_at _ ?idx ?g |>) _) _) =>
+      eapply (grow_set_map QT tt_QT st s9 _ idx g); [| | unfold st_line, st_parent; cbn; reflexivity]
+    end.
+    + apply (grow_push' _ tt_QT); [exact E7 | solve_keeps_tt | pg_table].
+    + cbn. lia.
+Qed.
+Transparent set_map_at.
+
+(* ---- dispatch, chains, loop ---- *)
+
+Lemma W_all (P : token -> Prop) name : In name (c_rules cfg) -> (forall t, P t -> P_rule name t) ->
+  forall a b, grow (fun t => P t \/ P_all t) a b -> grow P_all a b.
+Proof.
+  intros I Sub a b. apply grow_weaken. intros t [H|H]; [exists name; split; [exact I | apply Sub, H] | exact H].
+Qed.
+
+Lemma W_all0 (P : token -> Prop) name : In name (c_rules cfg) -> (forall t, P t -> P_rule name t) ->
+  forall a b, grow P a b -> grow P_all a b.
+Proof. intros I Sub a b. apply grow_weaken. intros t H. exists name. split; [exact I | apply Sub, H]. Qed.
+
+Lemma apply_rule_g rec term (R : rec_g rec) (T : term_g term) name st sl el silent b st' :
+  In name (c_rules cfg) ->
+  apply_rule cfg rf cf rec term name st sl el silent = Ok (b, st') -> grow P_all st st'.
+Proof.
+  intros I. unfold apply_rule. intros H.
+  destruct (str_eqb name nm_table) eqn:E1.
+  { apply (r_table_g term T) in H. eapply (W_all P_table name I); [|exact H]. intros t Ht. unfold P_rule. rewrite E1. exact Ht. }
+  destruct (str_eqb name nm_code) eqn:E2.
+  { apply r_code_g in H. eapply (W_all0 P_code name I); [|exact H]. intros t Ht. unfold P_rule. rewrite E1, E2. exact Ht. }
+  destruct (str_eqb name nm_fence) eqn:E3.
+  { apply r_fence_g in H. eapply (W_all0 P_fence name I); [|exact H]. intros t Ht. unfold P_rule. rewrite E1, E2, E3. exact Ht. }
+  destruct (str_eqb name nm_blockquote) eqn:E4.
+  { apply (r_blockquote_g rec term R T) in H. eapply (W_all P_blockquote name I); [|exact H]. intros t Ht. unfold P_rule. rewrite E1, E2, E3, E4. exact Ht. }
+  destruct (str_eqb name nm_hr) eqn:E5.
+  { apply r_hr_g in H. eapply (W_all0 P_hr name I); [|exact H]. intros t Ht. unfold P_rule. rewrite E1, E2, E3, E4, E5. exact Ht. }
+  destruct (str_eqb name nm_list) eqn:E6.
+  { apply (r_list_g rec term R T) in H. eapply (W_all P_list name I); [|exact H]. intros t Ht. unfold P_rule. rewrite E1, E2, E3, E4, E5, E6. exact Ht. }
+  destruct (str_eqb name nm_reference) eqn:E7.
+  { apply (r_reference_g term T) in H. eapply (W_all P_reference name I); [|exact H]. intros t Ht. unfold P_rule. rewrite E1, E2, E3, E4, E5, E6, E7. exact Ht. }
+  destruct (str_eqb name nm_html_block) eqn:E8.
+  { apply r_html_block_g in H. eapply (W_all0 P_html name I); [|exact H]. intros t Ht. unfold P_rule. rewrite E1, E2, E3, E4, E5, E6, E7, E8. exact Ht. }
+  destruct (str_eqb name nm_heading) eqn:E9.
+  { apply r_heading_g in H. eapply (W_all0 P_heading name I); [|exact H]. intros t Ht. unfold P_rule. rewrite E1, E2, E3, E4, E5, E6, E7, E8, E9. exact Ht. }
+  destruct (str_eqb name nm_lheading) eqn:E10.
+  { apply (r_lheading_g term T) in H. eapply (W_all P_heading name I); [|exact H]. intros t Ht. unfold P_rule. rewrite E1, E2, E3, E4, E5, E6, E7, E8, E9, E10. exact Ht. }
+  destruct (str_eqb name nm_paragraph) eqn:E11.
+  { apply (r_paragraph_g term T) in H. eapply (W_all P_paragraph name I); [|exact H]. intros t Ht. unfold P_rule. rewrite E1, E2, E3, E4, E5, E6, E7, E8, E9, E10, E11. exact Ht. }
+  rfinish H. apply grow_refl.
+Qed.
+
+(* the terminator chains are compiled from the enabled rules (Ruler: a named chain is the main chain
+   filtered by the rule's alt list), so every chain is a sub-list of the main chain *)
+Definition chains_sub : Prop := forall ch n, In n (c_term cfg ch) -> In n (c_rules cfg).
+
+Lemma run_chain_g : forall names st l el b st', (forall n, In n names -> In n (c_rules cfg)) ->
+  run_chain cfg rf cf names st l el = Ok (b, st') -> grow P_all st st'.
+Proof.
+  induction names as [|n names IH]; intros st l el b st' Sub H; cbn [run_chain] in H; [rfinish H; apply grow_refl|].
+  destruct (apply_rule cfg rf cf no_rec no_term n st l el true) as [[r s1]|?|] eqn:AR; cbn [bind] in H; try discriminate H.
+  apply (apply_rule_g no_rec no_term no_rec_g no_term_g) in AR; [|apply Sub; left; reflexivity].
+  destruct r; [rfinish H; exact AR|]. eapply grow_trans; [exact AR | eapply IH; [|exact H]]. intros m Hm. apply Sub. right; exact Hm.
+Qed.
+
+Lemma terminated_g (CS : chains_sub) : term_g (terminated cfg rf cf).
+Proof. intros ch s a b r s' H. unfold terminated in H. eapply run_chain_g; [|exact H]. intros n Hn. eapply CS; exact Hn. Qed.
+
+Lemma try_rules_g (CS : chains_sub) rec (R : rec_g rec) : forall names st l el st', (forall n, In n names -> In n (c_rules cfg)) ->
+  try_rules cfg rf cf rec names st l el = Ok st' -> grow P_all st st'.
+Proof.
+  induction names as [|n names IH]; intros st l el st' Sub H; cbn [try_rules] in H; [rfinish H; apply grow_refl|].
+  destruct (apply_rule cfg rf cf rec (terminated cfg rf cf) n st l el false) as [[r s1]|?|] eqn:AR; cbn [bind] in H; try discriminate H.
+  apply (apply_rule_g rec _ R (terminated_g CS)) in AR; [|apply Sub; left; reflexivity].
+  destruct r; [rfinish H; exact AR|]. eapply grow_trans; [exact AR | eapply IH; [|exact H]]. intros m Hm. apply Sub. right; exact Hm.
+Qed.
+
+Lemma tok_loop_g (CS : chains_sub) rec (R : rec_g rec) : forall fuel st line el hel st',
+  tok_loop cfg rf cf fuel rec st line el hel = Ok st' -> grow P_all st st'.
+Proof.
+  induction fuel as [|f IH]; intros st line el hel st' H; [discriminate H|].
+  cbn [tok_loop] in H.
+  destruct (negb (line <? el)); [rfinish H; apply grow_refl|].
+  match type of H with (if ?c then _ else _) = _ => destruct c end; [rfinish H; apply same_t_grow; reflexivity|].
+  rstep H. rstep H; [rfinish H; apply same_t_grow; reflexivity|].
+  rstep H; [rfinish H; apply same_t_grow; reflexivity|].
+  match type of H with bind ?m _ = _ => destruct m as [st2|?|] eqn:TR end; cbn [bind] in H; try discriminate H.
+  apply (try_rules_g CS rec R) in TR; [|intros n Hn; exact Hn].
+  assert (E2 : grow P_all st st2) by (eapply grow_same_l; [|exact TR]; reflexivity).
+  do 2 rstep H.
+  rstep H.
+  - eapply grow_trans; [|eapply IH; exact H]. eapply grow_same_r; [exact E2 | reflexivity].
+  - eapply grow_trans; [|eapply IH; exact H]. eapply grow_same_r; [exact E2 | reflexivity].
+Qed.
+
+Lemma tokenize_g (CS : chains_sub) : forall depth, rec_g (tokenize cfg rf cf depth).
+Proof.
+  induction depth as [|d IH]; intros s a b s' H; [discriminate H|].
+  cbn [tokenize] in H. eapply tok_loop_g; [exact CS | exact IH | exact H].
+Qed.
+
+(* ParserBlock.parse: every appended token has the (type, tag) of a rule of the chain *)
+Theorem block_parse_kinds (CS : chains_sub) src env toks st :
+  block_parse cfg rf cf src env toks = Ok st ->
+  exists seg, b_tokens st = toks ++ seg /\ Forall P_all seg.
+Proof.
+  unfold block_parse. intros H.
+  assert (E : grow P_all (state_init src env toks) st).
+  { destruct src as [|c src']; [rfinish H; apply grow_refl|]. eapply tokenize_g; [exact CS | exact H]. }
+  exact E.
+Qed.
+
 End Kinds.
+
+(* ---- consequences ---------------------------------------------------------------------------- *)
+
+(* C10: a token of a rule's vocabulary needs that rule in the chain *)
+Theorem no_rule_no_kind cfg rf cf (CS : chains_sub cfg) src env toks st :
+  block_parse cfg rf cf src env toks = Ok st ->
+  forall seg, b_tokens st = toks ++ seg ->
+  forall t, In t seg -> exists n, In n (c_rules cfg) /\ P_rule cfg n t.
+Proof.
+  intros H seg E t I. destruct (block_parse_kinds cfg rf cf CS src env toks st H) as (seg' & E' & F).
+  assert (seg' = seg) by (rewrite E in E'; apply app_inv_head in E'; symmetry; exact E'). subst seg'.
+  rewrite Forall_forall in F. exact (F t I).
+Qed.
+
+(* C04: the tags of block tokens come from a fixed vocabulary, and html_block tokens exist only
+   when options.html is on *)
+Definition block_tags : list str :=
+  [[104; 114];
+   [99; 111; 100; 101];
+   [112];
+   [98; 108; 111; 99; 107; 113; 117; 111; 116; 101];
+   [111; 108];
+   [117; 108];
+   [108; 105];
+   [116; 97; 98; 108; 101];
+   [116; 104; 101; 97; 100];
+   [116; 98; 111; 100; 121];
+   [116; 114];
+   [116; 104];
+   [116; 100];
+   [104; 49];
+   [104; 50];
+   [104; 51];
+   [104; 52];
+   [104; 53];
+   [104; 54];
+   []].
+
+Ltac tag_in := cbn [In block_tags]; tauto.
+
+Lemma P_rule_tag cfg n t : P_rule cfg n t ->
+  In (ttag t) block_tags /\ (ttype t = nm_html_block -> c_html cfg = true).
+Proof.
+  unfold P_rule.
+  repeat match goal with |- (if ?c then _ else _) -> _ => destruct c end;
+    unfold P_table, P_code, P_fence, P_blockquote, P_hr, P_list, P_reference, P_html, P_heading, P_paragraph, is;
+    intros H.
+  all: try contradiction.
+  all: try (repeat match goal with H : _ \/ _ |- _ => destruct H as [H|H] end;
+            repeat match goal with H : _ /\ _ |- _ => destruct H end;
+            match goal with A : ttype ?x = _, B : ttag ?x = _ |- _ => rewrite A, B; split; [unfold block_tags; cbn [In]; tauto | intros X; first [discriminate X | assumption]] end).
+  (* heading / lheading *)
+  all: destruct H as [[A B] | (l & Hl & [[A B] | [A B]])]; rewrite A, B;
+       (split; [|intros X; discriminate X]).
+  all: try (unfold block_tags; cbn [In]; tauto).
+  all: assert (HL : l = 1 \/ l = 2 \/ l = 3 \/ l = 4 \/ l = 5 \/ l = 6) by lia;
+       destruct HL as [->|[->|[->|[->|[->| ->]]]]]; unfold hN, block_tags; cbn; tauto.
+Qed.
+
+Theorem block_parse_tags cfg rf cf (CS : chains_sub cfg) src env toks st :
+  block_parse cfg rf cf src env toks = Ok st ->
+  exists seg, b_tokens st = toks ++ seg
+              /\ Forall (fun t => In (ttag t) block_tags /\ (ttype t = nm_html_block -> c_html cfg = true)) seg.
+Proof.
+  intros H. destruct (block_parse_kinds cfg rf cf CS src env toks st H) as (seg & E & F).
+  exists seg. split; [exact E|]. eapply Forall_impl; [|exact F].
+  intros t (n & _ & P). eapply P_rule_tag; exact P.
+Qed.
+
+(* a configuration taken from a Ruler state: the terminator chains are the main chain filtered by
+   alt membership, hence sub-lists of it *)
+From MD Require Import Model.Ruler.
+Lemma compile_chain_sub (rs : list (@rule str)) ch f : In f (compile_chain rs ch) -> In f (compile_chain rs []).
+Proof.
+  unfold compile_chain. rewrite !in_map_iff. intros (r & E & I). exists r. split; [exact E|].
+  apply filter_In in I. destruct I as [I C]. apply filter_In. split; [exact I|].
+  apply Bool.andb_true_iff in C. destruct C as [C _]. rewrite C. reflexivity.
+Qed.
+
+Theorem ruler_cfg_chains_sub (rs : list (@rule str)) code mn html defs :
+  chains_sub (mkBCfg (compile_chain rs []) (compile_chain rs) code mn html defs).
+Proof. intros ch n H. cbn [c_term c_rules] in *. eapply compile_chain_sub; exact H. Qed.
